@@ -579,6 +579,7 @@ package smtp
 //@   recv 1: @C04,C17 result-of-this-transfer: $ch == c.dataResult
 //@   recv 2: @C13 status-of-the-recipient-being-answered: $ch == c.bdatStatus.status[rangeindex + 1]
 //@   before (*statusCollector).fillRemaining: @C13,C04 recipients-without-a-status-of-their-own-get-the-backends-result-for-this-message: $1 == resultof("recv", 1, 1) && $0 == c.bdatStatus
+//@   before (*Conn).writeResponse: @C04,C17 the-final-reply-to-bdat-last-is-positive-exactly-when-the-backend-accepted-and-a-plain-error-is-554-5-0-0-with-its-text: called("recv") ==> (!c.server.LMTP && c.bdatPipe != nil && c.bdatPipe.state == 2 ==> ($1 == 250 <==> resultof("recv", 1, 1) == nil) && (istype(resultof("recv", 1, 1), "*SMTPError") ==> $1 == asref(resultof("recv", 1, 1), "*SMTPError").Code) && (resultof("recv", 1, 1) != nil && !istype(resultof("recv", 1, 1), "*SMTPError") ==> $1 == 554 && $2[0] == 5 && $2[1] == 0 && $2[2] == 0 && len($3) == 1 && $3[0] == "Error: transaction failed: " + errText(resultof("recv", 1, 1))))
 //@   before dataErrorToStatus#1: @C04,C17 the-verdict-written-is-the-result-received-for-this-message: $0 == resultof("recv", 1, 1)
 //@   before (*io.PipeWriter).Close: @C07,C05 clean-eof-only-after-complete-last-chunk: last && lrOf(chunk).N == 0
 //@   ensures inv: connInv(c)
